@@ -1500,6 +1500,10 @@ def gen_fs_prog(rng):
 
 
 FS_CORPUS = [
+    # a write of nothing at a position beyond the end (file truncated by another handle) does not extend the file
+    {"kind": "fs-semantics", "old": None, "prog": [
+        {"k": "create", "w": 0, "p": "t"}, {"k": "append", "w": 0, "b": "23a1"}, {"k": "create", "w": 2, "p": "t"},
+        {"k": "append", "w": 0, "b": ""}, {"k": "append", "w": 0, "b": "z"}]},
     # Witness.C14.shared_tmp_path_mixes_versions
     {"kind": "fs-semantics", "old": "old", "prog": [
         {"k": "create", "w": 0, "p": "x"}, {"k": "create", "w": 1, "p": "x"}, {"k": "append", "w": 1, "b": "123"},
